@@ -74,8 +74,8 @@ PROPS = {
     },
     "C06": {
         "lean": ["FH.Props.C06"],
-        "engines": ["hist"],
-        "level_text": "Theorem C06_cache_transparency: for every history of new/clone/add/remove/unwind over any number of unwinders sharing a cache (fewer than 65 536 module-set changes, consistent ip/return use of each address) the outcome of a further call equals the outcome with a fresh cache, by an invariant over the history (every cache entry is the rule a miss would insert for its address under the module list its generation stands for) proved preserved by every operation. Tie: histories executed on real unwinders/caches and on the model; every unwind also run against a fresh real cache.",
+        "engines": ["hist", "macho", "pe"],
+        "level_text": "Theorem C06_cache_transparency: for every history of new/clone/add/remove/unwind over any number of unwinders sharing a cache (fewer than 65 536 module-set changes, consistent ip/return use of each address) the outcome of a further call equals the outcome with a fresh cache, by an invariant over the history (every cache entry is the rule a miss would insert for its address under the module list its generation stands for) proved preserved by every operation. Tie: histories executed on real unwinders/caches and on the model; every unwind - in the DWARF histories and in the Mach-O and PE engines alike - also run against a fresh real cache.",
         "level_note": _NOTE + " The theorem's key premise - the inserted rule never depends on registers or stack - is a structural property of the model (missPath_static) that the correspondence and the fresh-cache twin check on the code.",
         "statement": "For all histories (unbounded length, any interleaving of calls on colliding and non-colliding addresses, cacheable/uncacheable/failing calls, module changes, clones, several unwinders) the result and updated registers of unwind_frame do not depend on the cache contents.",
     },
@@ -88,8 +88,8 @@ PROPS = {
     },
     "C13": {
         "lean": ["FH.Props.C13"],
-        "engines": ["hist"],
-        "level_text": "Theorems: the lookup address of a return address a is a-1 and of an instruction pointer a is a; unwind_frame depends on a return address only through a-1; for adjacent modules / adjacent FDEs the boundary address resolves to the earlier one as return address and to the later one as instruction pointer; the same holds at a row boundary inside one FDE (C13_row_boundary), and the whole plan sees only the lookup address (C13_plan_sees_lookup_address). Tie: histories probe every module/FDE/row boundary +-1 in both kinds; model-free boundary scenarios (one or two modules, three presentations) check which FDE and row is consulted.",
+        "engines": ["hist", "macho"],
+        "level_text": "Theorems: the lookup address of a return address a is a-1 and of an instruction pointer a is a; unwind_frame depends on a return address only through a-1; for adjacent modules / adjacent FDEs the boundary address resolves to the earlier one as return address and to the later one as instruction pointer; the same holds at a row boundary inside one FDE (C13_row_boundary), and the whole plan sees only the lookup address (C13_plan_sees_lookup_address). Tie: histories probe every module/FDE/row boundary +-1 in both kinds; model-free boundary scenarios (one or two modules, three presentations) check which FDE and row is consulted; in the Mach-O ground-truth programs one caller ends in a call whose return address is the first byte of the next function or of __stubs.",
         "level_note": _NOTE,
         "statement": "Return addresses are looked up at address-1 in the cache, the module list and the FDE table; instruction pointers exactly.",
     },
@@ -132,7 +132,7 @@ PROPS = {
     },
     "C04": {
         "lean": ["FH.Props.C04"],
-        "engines": ["scn", "hist", "rule", "asm"],
+        "engines": ["scn", "hist", "rule", "asm", "macho", "pe"],
         "level_text": "Theorems: the decision table (no module / no or unusable unwind data / failed table lookup => fallback rule; address covered by no FDE => the architecture's uncovered rule = leaf in the first frame, frame pointer step otherwise), the fallback rule equals the platform frame-pointer convention under framehop's sanity checks (both architectures), null frame pointer or null return address completes with Ok(None), and a walk over any well-formed frame-record chain (any length, spacing, alignment; both architectures) yields exactly the records' return addresses and ends with Ok(None) (induction over the chain). Tie: scn with unwind info removed in five ways + hist.",
         "level_note": _NOTE + " PE (.pdata) and compact-unwind reasons are added with those formats' models.",
         "statement": "Fallback/leaf decision table and frame-pointer chain walk.",
